@@ -11,7 +11,7 @@
    simulation cases are not proved): comp_correct_partial.  Its core is the generalised lemma
    comp_expr_context_independent (SimExpr.sim_expr). *)
 From Coq Require Import ZArith NArith List Bool.
-From KV.comp Require Import Ast0 Sem0 Instr0 Comp0 VM0 Known0 InstrLemmas CompLemmas SimBase SimExpr SimProg.
+From KV.comp Require Import Ast0 Sem0 Instr0 Comp0 VM0 Known0 InstrLemmas CompLemmas SimBase SimExpr SimAll SimProg.
 Import ListNotations.
 Open Scope N_scope.
 
